@@ -115,6 +115,11 @@ def scalar_binop(I, op, a, b):
         else:
             # numpy semantics (inf/nan, no exception): outside the modelled reals (A1);
             # "the divisor is non-zero" becomes a domain obligation of the contract
+            if getattr(I, "zero_over_zero_is_nan", False):
+                # contracts about "NaN or finite" results: 0/0 is NaN (allowed), only x/0 with x != 0 (+-inf)
+                # leaves the domain
+                I.domain("div_nonzero_or_0_over_0", z3.Or(y != 0, x == 0))
+                return SReal(x / y, zor(nan, z3.And(y == 0, x == 0)))
             I.domain("div_nonzero", y != 0)
         return SReal(x / y, nan)
     if op == "FloorDiv":
@@ -387,7 +392,13 @@ def elementwise(I, f, *ops, kind=None):
                 raise Unsupported("compressed arrays with different masks")
         getters = [(o.fn if isinstance(o, SCompressed) else (lambda i, o=o: o)) for o in ops]
         fn = lambda i: f(*[g(i) for g in getters])
-        return SCompressed(fn, m0.maskfn, m0.length, kind or m0.kind)
+        k = kind
+        if k is None:
+            try:
+                k = kind_of(fn(z3.Int(fresh("probe"))))
+            except Unsupported:
+                k = m0.kind
+        return SCompressed(fn, m0.maskfn, m0.length, k)
     n = arrs[0].length
     for a in arrs[1:]:
         if a.length is not n and not _same_len(a.length, n):
